@@ -138,6 +138,12 @@ def expression_shapes():
     out["CallExpression/2"] = lambda: (a.CallExpression(ty.UnresolvedType("h"), [E("e0"), E("e1")]), {})
     out["ArrayExpression"] = lambda: (a.ArrayExpression(E("p"), E("i")), {})
     out["MemberAccessExpression"] = lambda: (a.MemberAccessExpression(E("p"), E("m")), {})
+
+    def swz():
+        n = a.MemberAccessExpression(E("p"), E("m"))
+        n.SetSwizzle(True)          # state set by the typing pass: the node's children are the same two sub-trees
+        return n, {}
+    out["MemberAccessExpression/swizzle"] = swz
     out["BinaryExpression"] = lambda: (a.BinaryExpression(op.Operation.ADD, E("l"), E("r")), {})
     out["AssignmentExpression"] = lambda: (a.AssignmentExpression(E("l"), E("r")), {})
     out["AffixExpression"] = lambda: (a.AffixExpression(op.Operation.ADD, E("e"), a.Affix.PRE), {})
